@@ -395,6 +395,23 @@ pub fn chapoly_decrypt_ietf(
     Ok(plaintext)
 }
 
+/// Verification hook: exposes the crate-private Noise-style AEAD seal.
+#[cfg(feature = "verif-hooks")]
+pub fn verif_chapoly_encrypt_noise(key: &[u8], nonce: u64, ad: &[u8], plaintext: &[u8]) -> Vec<u8> {
+    chapoly_encrypt_noise(key, nonce, ad, plaintext)
+}
+
+/// Verification hook: exposes the crate-private Noise-style AEAD open.
+#[cfg(feature = "verif-hooks")]
+pub fn verif_chapoly_decrypt_noise(
+    key: &[u8],
+    nonce: u64,
+    ad: &[u8],
+    ciphertext: &[u8],
+) -> Result<Vec<u8>, ChaPolyDecryptError> {
+    chapoly_decrypt_noise(key, nonce, ad, ciphertext)
+}
+
 /// SHA-256
 pub fn sha256(data: &[u8]) -> Vec<u8> {
     Sha256::digest(data).unwrap().as_ref().to_vec()
